@@ -342,3 +342,67 @@ def r20_4(ctx):
 def r20_5(ctx):
     from .c13 import r13_10
     r13_10(ctx)
+
+
+def _chain_splitters(P):
+    """Functions of rockit that take a comparison apart (body inspects .is_op(..) and .dep(..))."""
+    out = []
+    for f in P.all_functions(include_nested=False):
+        attrs = {x.attr for x in ast.walk(f.node) if isinstance(x, ast.Attribute)}
+        if "is_op" in attrs and "dep" in attrs and any(isinstance(r, ast.Return) and r.value is not None for r in ast.walk(f.node)):
+            out.append(f)
+    return out
+
+
+@rule("R20.6", min_instances=3, desc="a constraint that became constant by placeholder substitution (fixed T/t0/tf) is judged link by link: the numeric value of a folded chain lb <= (g <= ub) is not its truth value")
+def r20_6(ctx):
+    """D77: `0 <= (ocp.T <= 0.5)` with T=1 folded to 0 <= 0 == 1 and was skipped as 'true'; `1.5 <= (ocp.T <= 5)` with T=2 was rejected."""
+    P = ctx.prog
+    f = P.own_method("OptiWrapper", "transcribe_placeholders")
+    sc = ctx.scope(f)
+    splitters = _chain_splitters(P)
+    ctx.check(bool(splitters), "rockit has a function that takes a chained comparison apart", detail="no splitter: chained constant constraints can only be judged by their folded value",
+              expected="a helper inspecting is_op(OP_LE/OP_LT) and dep()", found="none", fi=f)
+    from .c04 import replay_loop
+    rl = replay_loop(ctx, f)
+    if rl is None:
+        raise AnalysisError("OptiWrapper.transcribe_placeholders: replay loop over the stored constraints not found")
+    loop = rl[0]
+    skips = [s for s in ast.walk(loop) if isinstance(s, ast.Continue)]
+    if not skips:
+        raise AnalysisError("OptiWrapper.transcribe_placeholders: no skip of constant constraints found (anchor moved?)")
+    # names that hold the links: assigned from a call whose callee is a splitter (possibly wrapped in the placeholder substitution)
+    link_names = {}
+    for st in ast.walk(loop):
+        if isinstance(st, ast.Assign) and len(st.targets) == 1 and isinstance(st.targets[0], ast.Name):
+            for c in ast.walk(st.value):
+                if isinstance(c, ast.Call) and any(g in splitters for g in P.resolve_call(f, c)):
+                    link_names[st.targets[0].id] = (st, c)
+    for s in skips:
+        gs = sc.guard_conjuncts(s)
+        names = {x.id for g, p in gs for x in ast.walk(g) if isinstance(x, ast.Name)}
+        ok = bool(names & set(link_names))
+        ctx.check(ok, "OptiWrapper.transcribe_placeholders skips a constant constraint only when every link of the chain holds", detail="a false two-sided constraint on a fixed horizon is silently dropped (and a true one rejected)",
+                  expected="continue guarded by all(<link is one> for link in <splitter>(original constraint))", found=" and ".join(ast.unparse(g)[:80] for g, p in gs) or "unguarded", fi=f, node=s)
+    # the splitter is applied to the un-substituted expression (the substituted one is already folded)
+    for nm, (st, c) in sorted(link_names.items()):
+        arg = c.args[0] if c.args else None
+        src = None
+        if isinstance(arg, ast.Name) and isinstance(loop.target, ast.Tuple) and isinstance(loop.iter, ast.Call) and ast.unparse(loop.iter.func) == "zip":
+            tn = [ast.unparse(e) for e in loop.target.elts]
+            if arg.id in tn and tn.index(arg.id) < len(loop.iter.args):
+                src = ast.unparse(loop.iter.args[tn.index(arg.id)])
+        if src is None and isinstance(arg, ast.Name):
+            # <orig>, scale, meta = self.constraints[i]   /   <orig> = self.constraints[i][0]
+            for b in ast.walk(loop):
+                if isinstance(b, ast.Assign) and len(b.targets) == 1:
+                    t, v = b.targets[0], b.value
+                    if isinstance(t, ast.Tuple) and t.elts and isinstance(t.elts[0], ast.Name) and t.elts[0].id == arg.id and isinstance(v, ast.Subscript) and ast.unparse(v.value) == "self.constraints":
+                        src = ast.unparse(v) + "[0]"
+                    elif isinstance(t, ast.Name) and t.id == arg.id and isinstance(v, ast.Subscript) and ast.unparse(v.slice) == "0" and isinstance(v.value, ast.Subscript) and ast.unparse(v.value.value) == "self.constraints":
+                        src = ast.unparse(v)
+        elif src is None and arg is not None:
+            src = ast.unparse(arg)
+        ok = src is not None and "self.constraints" in src and "[0]" in src.replace(" ", "") and "res" not in {x.id for x in ast.walk(ast.parse(src)) if isinstance(x, ast.Name)}
+        ctx.check(ok, "the chain is taken apart before placeholder substitution", detail="after substitution the chain is already folded into one number", expected="<splitter>(c[0] of self.constraints)",
+                  found="%s <- %s" % (ast.unparse(c)[:60], src), fi=f, node=c)
